@@ -1,4 +1,5 @@
 """C04 — adjacent output elements merge exactly as the freshness rules say."""
+import common
 import copy
 import random
 
@@ -97,11 +98,11 @@ def run(out, tier, seed, model_ok):
         memo = {}
         forests += [(f, "exhaustive-%d" % n) for f in H.forests(n, tags, memo)]
     exhaustive_n = len(forests)
-    for _ in range(3000 if tier == "quick" else 40000):
+    for _ in range(common.deepen(3000 if tier == "quick" else 40000)):
         forests.append((H.random_forest(rng, max_nodes=rng.choice([4, 10, 30, 60])), "random"))
     # forests the converter really builds: captured from conversions with nested, separated paths
     log = []
-    napi = 250 if tier == "quick" else 3000
+    napi = common.deepen(250 if tier == "quick" else 3000)
     with capture.html_calls(log):
         for i in range(napi):
             g, parts, opts = cases.api_case(seed * 1000003 + i, dict(separators=True, style_map=0.9, p_table=0.05, p_image=0.0),
